@@ -270,7 +270,44 @@ func (r Rng) treeID(w Win, d int64) ID {
 	return id
 }
 
+// driveIndexTwins: two merge targets whose indices collide under common (x, y, f) packings: both
+// complete (each must merge), complementary halves (nothing may merge), one complete and one child.
+func driveIndexTwins(t *Tracer, r Rng, k int) {
+	tw := indexTwins()
+	w := Win{Abs: true}
+	for i := 0; i < k; i++ {
+		p := tw[r.Intn(len(tw))]
+		if r.Chance(0.5) {
+			p.A, p.B = p.B, p.A
+		}
+		ca, cb := children(p.A), children(p.B)
+		var ids []ID
+		switch r.Intn(3) {
+		case 0:
+			ids = append(append(ids, ca...), cb...)
+		case 1:
+			for j := range ca {
+				if ca[j].F%2 == 0 {
+					ids = append(ids, ca[j])
+				}
+				if cb[j].F%2 != 0 {
+					ids = append(ids, cb[j])
+				}
+			}
+		default:
+			ids = append(append(ids, ca...), cb[r.Intn(8)])
+		}
+		r.Shuffle(len(ids), func(a, b int) { ids[a], ids[b] = ids[b], ids[a] })
+		evMergeExt(t, w, ids, p.A.H, p.A.V)
+		evMergeSp(t, w, ids, p.A.H)
+		evChangeZoomExt(t, w, ids, p.A.H, p.A.V)
+	}
+}
+
 func driveMerge(t *Tracer, r Rng, n int) {
+	if n >= 100 {
+		driveIndexTwins(t, r, 40)
+	}
 	for i := 0; i < n; i++ {
 		if r.Chance(0.7) {
 			hD, vD := r.In(0, 5), r.In(0, 5)
